@@ -62,15 +62,15 @@ theorem emitS_compile (env : List VarLoc) : ∀ (s : SStmt) (k : KStmt), compile
 /-! ## decidable hypotheses -/
 
 def operandOkB (e : Expr) (b : Bool) (o : List Nat) : Bool :=
-  leavesOwnedB o e && e.frag && !unaryInPlace e false && !narrowIn64 e b false .any && !neg32in64 e b
+  leavesOwnedB o e && e.frag && !narrowIn64 e b false .any
 
 theorem operandOkB_sound {e : Expr} {b : Bool} {o : List Nat} (h : operandOkB e b o = true) : OperandOk e b o := by
   simp only [operandOkB, Bool.and_eq_true, Bool.not_eq_true'] at h
-  obtain ⟨⟨⟨⟨h1, h2⟩, h3⟩, h4⟩, h5⟩ := h
-  exact ⟨leavesOwnedB_sound h1, h2, h3, h4, h5⟩
+  obtain ⟨⟨h1, h2⟩, h4⟩ := h
+  exact ⟨leavesOwnedB_sound h1, h2, h4⟩
 
-/-- one atom: well-typed operands of C01's proved fragment, in none of the classes *unary-in-place*,
-*narrow-reg-in-64*, *unary-32-in-64*, *widen-in-place*, and (by `atomFrag`) not *u64-vs-negative-short* -/
+/-- one atom: well-typed operands of C01's proved fragment, in none of the classes
+*narrow-reg-in-64*, *widen-in-place*, and (by `atomFrag`) with a jump that only looks at bits the operands determine -/
 def atomOkB (o : List Nat) (l r : Expr) : Bool :=
   operandOkB l (opW l) o && (r.asSmallConst.isSome || operandOkB r (rW l r) o) && !widenInPlace l r && atomFrag l r
 
